@@ -4,7 +4,7 @@ import re
 def gen(x):
     s = x.strip_comments(x.src("optimizer.cpp"))
     w = []
-    for name in ("max_stack_depth", "min_sub_score", "min_loop_score", "max_sub_stack", "max_loop_stack"):
+    for name in ("max_stack_depth", "min_sub_score", "min_loop_score", "max_sub_stack", "max_loop_stack", "max_src_stack"):
         m = x.need(re.search(r"Optimizer::%s\s*=\s*(\d+)" % name, s), "optimizer.cpp:" + name)
         w.append("def opt_%s : Nat := %s" % (name, m.group(1)))
     # the cap of a loop fold (repair of D2): the class constant, the number of repetitions one
@@ -29,6 +29,21 @@ def gen(x):
            "optimizer.cpp:apply_match erased range")
     if "best_match.loop_length" in body.split("uint32_t max_fold", 1)[1]:
         raise x.ShapeError("optimizer.cpp:apply_match uses the uncapped loop_length after the cap")
+    # the stack tests of find_match on the SOURCE phrase (repair of D18): the `balanced` vector ends where
+    # the source phrase has no room for a call (`max_src_stack`), and a loop candidate is valid only while
+    # every event of `[src_start, dst_pos)` has room for one more loop (`max_loop_stack`); both read the
+    # analyser of the source track
+    fm = x.need(re.search(r"Optimizer::Match\s+Optimizer::find_match\s*\(.*?\)(.*?)\n\}", s, flags=re.S), "optimizer.cpp:find_match")
+    fbody = re.sub(r"\s+", " ", fm.group(1))
+    x.need(re.search(r"Stack_Analyzer ?& ?src_stack = stack_analyzer\[src_track\] ?;", fbody), "optimizer.cpp:find_match src_stack")
+    x.need(re.search(r"for ?\( ?unsigned int i = src_start ?; i < src\.get_event_count\(\) && depth >= 0 ?; i\+\+ ?\) ?\{ ?"
+                     r"if ?\( ?src_stack\.event_list\[i\] \+ src_stack\.base_usage >= max_src_stack ?\) break ?; "
+                     r"auto type = src\.get_event\(i\)\.type ?;", fbody),
+           "optimizer.cpp:find_match stack test of the source phrase (balanced vector)")
+    x.need(re.search(r"for ?\( ?unsigned int dst_pos = src_start \+ 1 ?; dst_pos < dst\.second\.get_event_count\(\) ?; dst_pos\+\+ ?\) ?\{ ?"
+                     r"if ?\( ?src_stack\.event_list\[dst_pos - 1\] \+ src_stack\.base_usage >= max_loop_stack ?\) loop_valid = false ?; "
+                     r"auto param = dst\.second\.get_event\(dst_pos\)\.type ?;", fbody),
+           "optimizer.cpp:find_match stack test of the folded period (loop_valid)")
     m = x.need(re.search(r":\s*sub_id\((\d+)\)", s), "optimizer.cpp:sub_id initialiser")
     w.append("def opt_sub_id : Nat := %s" % m.group(1))
     m = x.need(re.search(r"min_score\((\d+)\)", s), "optimizer.cpp:min_score initialiser")
